@@ -1399,7 +1399,14 @@ func (sc *serverConn) processWindowUpdate(f *WindowUpdateFrame) error {
 	sc.serveG.Check()
 	switch {
 	case f.StreamID != 0: // stream-level flow control
-		st := sc.streams[f.StreamID]
+		state, st := sc.state(f.StreamID)
+		if state == stateIdle {
+			// RFC 7540 Section 5.1, idle: "Receiving any frame other than
+			// HEADERS or PRIORITY on a stream in this state MUST be
+			// treated as a connection error (Section 5.4.1) of type
+			// PROTOCOL_ERROR."
+			return ConnectionError{ErrCodeProtocol, "recv WINDOW_UPDATE for stream in Idle state"}
+		}
 		if st == nil {
 			// "WINDOW_UPDATE can be sent by a peer that has sent a
 			// frame bearing the END_STREAM flag. This means that a
